@@ -50,6 +50,22 @@ CLAIMED["C20"] = dict(
     note="Trusted: Coq kernel; ast policy extraction; instance-level staleness (an instance created before a registration) not modelled.",
     design="3/C20")
 
+CLAIMED["C07"] = dict(
+    technique="Coq proof of traced lowering outputs (tie T2) against vertex-level definitions + hand-proved geometry theorems (Crelle, circumcentres, normals, Gram/pinv laws)",
+    text="The real apply_geometry_lowering is traced on every geometric quantity for interval (gdim 1-3), triangle (gdim 2-3) and tetrahedron cells, per facet/ridge where relevant (165 configurations quick, 187 thorough, listed in the evidence); the remaining terminals are read through a reference-cell convention table and Coq proves for ALL vertex positions and points that each lowered component equals a Gallina specification written over the vertex coordinates, with abs/sqrt/min/max matched structurally (a lost abs, flipped sign or min<->max breaks an obligation). Hand theorems (closed) prove that the specifications are the geometric quantities: Gram determinants, left/right (pseudo-)inverse laws, volume^2, circumradius via explicit circumcentres and Crelle's identity, facet normals tangent-orthogonal/unit/outward, cell normals.",
+    note="Trusted: Coq kernel + vm_compute; serializer; the reference-cell convention table (FFCx/basix numbering) in Props/C07_spec.v; real mode; non-degeneracy premises; abs/sqrt/min/max uninterpreted (sqrt^2, abs^2 laws as premises of the hand theorems). Non-affine, quadrilateral/hexahedral cells not covered.",
+    design="0.1/C07")
+CLAIMED["C13"] = dict(
+    technique="AST translation of the __eq__/__repr__/hash methods into Coq specs with a generic consistency theorem; hand model of expr_equals proved equal to structural equality; Coq-checked model-vs-code correspondence cases",
+    text="On every run the effective __eq__/equals, __repr__ and hash methods of 20+ terminal and form-level classes (all geometric quantities as a group) are translated from /repo with inspect+ast (fail-closed) into Gallina specs; C13_class_consistent proves for every well-formed spec that == is an equivalence implying equal repr and hash data, and each class gets a _consistent lemma or, if its spec is not well-formed, _refuted/_partial lemmas (Constant today). A faithful model of expr_equals (hash cut-off, identity shortcuts, stack loop, equal_pairs memo) is proved for all trees and all hash functions to decide structural equality; equal expressions share every bottom-up attribute; comparison histories on a heap leave every denoted tree unchanged. Pairs differing in one attribute / one node, triples, comparison histories, eval(repr) and pickle round trips are checked on the real code and against the model each run (also with all cached hashes forced to 0).",
+    note="Trusted: Coq kernel; the translator py/C13_t1.py; user-supplied element/domain == assumed an equivalence consistent with repr; round trips are validated on the real code, not proved; ExternalOperator/Interpolate not modelled. 3 known findings.",
+    design="0.1/C13")
+CLAIMED["C27"] = dict(
+    technique="AST translation of metadata-dict handling into an aliasing IR with a Coq frame theorem; monitored random operation histories",
+    text="PARTIAL (modelled mutation channels). The metadata-dict handling of attach_estimated_degrees, apply_integral_scaling, Integral/Measure constructors and reconstruct, group_form_integrals, accumulate_integrands_with_same_metadata, build_integral_data, rearrange_integrals_by_single_subdomains is translated from /repo into an aliasing IR on every run; C27_frame proves for all IR programs passing the must-be-fresh analysis, all heaps and iteration counts, that no dict existing before the call is written, and each translated function is shown safe by vm_compute. The == channel is covered by C13_compare_history_pure. A monitor replays seeded random histories of 28 public operations on generated forms and compares repr, hash, fresh signature, arguments, coefficients, constants and deep metadata of every pooled object after every step (validation and search oracle).",
+    note="Trusted: Coq kernel; translator py/C27_t1.py (whitelisted callees assumed read-only); channels outside the heap model (Form caches, Expr._hash, third-party objects, re-initialisation through __new__/__init__) are monitored only. 1 known finding (abs-of-abs-reinit).",
+    design="0.1/C27")
+
 REASON_PENDING = "model not finished in this revision; not claimed rather than claimed with a non-proof check"
 
 
